@@ -4234,9 +4234,9 @@ class IfElseNode(ActionSinkNode, ActionSourceNode):
 
     def adopt_actions_from(self):
         if self.equivalent_actions:
-            return tuple(self.equivalent_actions), self.next
+            return list(self.equivalent_actions), self.next
         else:
-            return (), self
+            return [], self
 
     def _adopt_actions(self, actions):
         if any(x.get_mode() != ActionMode.AT_FINISH for x in actions):
